@@ -65,6 +65,10 @@ checks = {
  "C11": ("A/B+C", "exhaustive enumeration of (receiver, query found by reflection, arguments) with a raw-dump-unchanged oracle and a lock-hook trap; exhaustive schedule exploration of concurrent queries; separate free-running -race pass",
          "Every exported method found by reflection that is not in the declared mutator list is a query: x argument tuples x receivers (5 kinds x 3 contents x {plain, mutex, read-only, both} x {default, fully configured}; 8 Conditions). The recursive raw dump (nested instances included) must be identical before/after, the answer identical when repeated, altering every returned slice must change nothing, and the lock hook turns any lock event during a query into a failure (the read path is lock-free). Concurrency: every schedule of three threads issuing queries on one shared mutex-enabled structure is explored under the cooperative scheduler (answers equal the isolated ones, nothing written); the memory-model clause is served by a free-running -race pass with 16 goroutines in which any report is a violation.",
          "Trusted: VerifDump as the complete state; the mutator list (a mutator wrongly listed there is not checked here); race pass is sampling.", "§3 C11"),
+
+ "C14": ("A/B", "exhaustive enumeration of (policy predicate, batch, capacity, prefill) with recorded call logs; explicit-state BFS over closure install/remove histories with per-state dispatch checks",
+         "Push policy: all 16 accept/reject predicates over 4 value classes x every batch of length 1..3 x capacity none/1/2/3 x pre-filled 0..2 x no-nesting on/off; the policy's call log, the stored content and Err() are compared with the documented rule (consulted once per value while room remains, stop at the first rejection, keep what was appended, nothing rejected stored). Other closures: BFS to fix-point over installing (accepting / rejecting / sentinel variants) and removing (both forms) validity, presentation, equality, unmarshal, marshal closures (evaluator on Conditions) for all five kinds and Conditions; in every reachable state Valid, String, IsEqual, Unmarshal, Marshal and Evaluate are compared with the closure's sentinel or with a twin that never had a closure; BASIC refuses a presentation policy.",
+         "Trusted: closures are pure and total; reference rule written from the statement.", "§3 C14"),
 }
 not_built = {f"C{i:02d}" for i in range(1,21)} - set(checks)
 m = {
